@@ -66,6 +66,17 @@ def family(rp):
     f.add("method-call-supertype", "class A\n    def m(self, a: Int) -> Int => a\ndef z := A()\ndef r: Int := z.m(1.5)", "reject")
     f.add("operator-wrong-operand", "def r := 1 + \"s\"", "reject")
     f.add("operator-conforming", "def r: Int := 1 + 2", "accept")
+    meter = "class Meter\n    def scale(self, factor: Float) -> Float => factor * 2.0\n    def count(self) -> Int => 1\n\n"
+    f.add("method-result-into-narrower-return", meter + "def bad(m: Meter) -> Int => m.scale(1.5)", "reject")
+    f.add("method-result-into-wider-return", meter + "def good(m: Meter) -> Float => m.count()", "accept")
+    f.add("operator-result-into-narrower-return", "def g(x: Float) -> Int => x + 1.0", "reject")
+    f.add("operator-result-into-wider-return", "def f(x: Int) -> Float => x + 1", "accept")
+    f.add("field-type-into-narrower", "class P\n    def w: Float := 1.5\ndef p := P()\ndef r: Int := p.w", "reject")
+    f.add("field-type-into-wider", "class P\n    def w: Int := 1\ndef p := P()\ndef r: Float := p.w", "accept")
+    f.add("shadow-closed-function-scope-str-into-float", meter + "def x: Str := \"wide\"\n\ndef half(x: Float) -> Float => x / 2.0\n\ndef m := Meter()\nm.scale(x)\n", "reject")
+    f.add("shadow-closed-loop-scope-str-into-float", meter + "def run(m: Meter, x: Str) -> Float =>\n    def y := 0.0\n    for x in 0 .. 3 do\n        y := y + 1.0\n    m.scale(x)\n", "reject")
+    f.add("shadow-closed-function-scope-float-into-float", meter + "def x: Float := 1.5\n\ndef shout(x: Str) -> Str => x + \"!\"\n\ndef m := Meter()\nm.scale(x)\n", "accept")
+    f.add("shadow-closed-loop-scope-float-into-float", meter + "def run(m: Meter, x: Float) -> Float =>\n    for x in [\"a\", \"b\"] do\n        print(x)\n    m.scale(x)\n", "accept")
     f.add("nested-call-wrong-type", fn + "def r: Int := f(f(\"s\"))", "reject")
     f.add("call-in-branch-wrong-type", fn + "if True then\n    f(\"s\")\n", "reject")
     return f
@@ -239,6 +250,119 @@ def ob_method_parameters(run, mir, rp, fam):
                 print("FAIL", p.kind, result_kind(p), [ev["name"] for ev in p.events][-8:], [str(x)[:100] for x in p.cond][-4:])
     e2.prove(run, ob, ex, [], conj(claims), {}, fam.as_replay("method-parameters:", only=["method-call", "operator-"]))
     run.samples.append({"obligation": ob.id, "paths": len(ends), "paths_with_constraint": n_push})
+
+
+def ob_access_direction(run, mir, rp, fam):
+    ob = run.ob("method-result-direction", "E2", "function_access / field_access (one iteration of the loop over the receiver's classes): the "
+                "method's declared return type is queued as CHILD of what the call is expected to be (parent = the other side), a field's "
+                "declared type as PARENT of the other side; the arguments go through unify_fun_arg with the method's formals",
+                ["function_access (loop body)", "field_access (loop body)"])
+    claims, seen = [], 0
+    for fname in ("function_access", "field_access"):
+        fn = e2.find1(mir, file=UNIFY_FUN_RS, name=fname)
+        ex = Exec(mir, max_paths=20000)
+        st = State()
+        args, by = [], {}
+        for an, aty in fn.args:
+            t = aty.strip()
+            nm = fn.debug_name(an) if hasattr(fn, "debug_name") else None
+            if t == "usize":
+                v = z3.BitVec("total", 64)
+            elif t.startswith("&") and not t.startswith("&[") and t != "&str":
+                v = Ref(ex.new_cell(st, opq(f"{fname}.a{an}", t.lstrip("&").replace("mut ", "").strip())))
+            else:
+                v = opq(f"{fname}.a{an}", t)
+            args.append(v)
+        # argument roles by position (constraints, finished, ctx, entity_name, name, [args], accessed, other, msg, total)
+        names_ = ["constraints", "finished", "ctx", "entity_name", "name"] + (["args"] if fname == "function_access" else []) + ["accessed", "other", "msg", "total"]
+        if len(names_) != len(args):
+            raise Unsupported(f"{fname}: signature changed ({len(args)} parameters)")
+        by = dict(zip(names_, args))
+        ends = e2.run_kernel(run, ex, fn, args, st)
+        exf = e2.rust_struct(EXPECTED_RS, "Expected")
+        for p in ends:
+            if p.kind != "loop_back":
+                continue
+            pushes = calls(p, "Constraints::push")
+            if not pushes:
+                continue
+            seen += 1
+            s = p.state
+            a = pushes[-1]
+            pv = ex.read_ref(s, a["args"][2]) if isinstance(a["args"][2], Ref) else a["args"][2]
+            cv = ex.read_ref(s, a["args"][3]) if isinstance(a["args"][3], Ref) else a["args"][3]
+            other = ex.to_val(s, by["other"])
+            news = calls(p, "Expected::new")
+            acc_pos = ex.project(s, ex.read_ref(s, by["accessed"]), ("f", exf.index("pos")), "Position")
+            decl = [nw for nw in news if nw["argvals"][0] == ex.to_val(s, acc_pos) or z3.eq(nw["argvals"][0], ex.to_val(s, acc_pos))]
+            ok = z3.BoolVal(False)
+            if decl:
+                d = ex.to_val(s, decl[-1]["ret"])
+                if fname == "function_access":
+                    ok = z3.And(ex.to_val(s, pv) == other, ex.to_val(s, cv) == d)
+                    ufa = calls(p, "unify_fun_arg")
+                    ok = z3.And(ok, z3.BoolVal(len(ufa) == 1))
+                    if len(ufa) == 1:
+                        ok = z3.And(ok, ufa[0]["argvals"][3] == ex.to_val(s, by["args"]))
+                else:
+                    ok = z3.And(ex.to_val(s, pv) == d, ex.to_val(s, cv) == other)
+            claims.append(z3.Implies(conj(p.cond), z3.And(z3.BoolVal(len(pushes) == 1), ok)))
+    if seen < 2:
+        raise Unsupported(f"only {seen} loop paths queue a constraint")
+    e2.prove(run, ob, ex, [], conj(claims), {}, fam.as_replay("method-result:", only=["method-result-", "operator-result-", "field-type-"]))
+
+
+def ob_shadow_mapping(run, mir, rp, fam, prefix="shadow-mapping"):
+    """Expected::map_exp renames identifiers to their current shadow; every part of an expectation uses the same two tables."""
+    ob = run.ob("shadow-mapping", "E2", "Expected::map_exp / Constraint::map_exp: every recursive renaming (arguments of a call, receiver and "
+                "member of an access, both sides of a constraint) receives the scope-local table first and the global table second, and an "
+                "identifier is looked up in the local table before the global one", ["Expected::map_exp + closures", "Constraint::map_exp"])
+    claims, n = [], 0
+    cands = [(nme, f) for nme, f in mir.fns.items() if nme.split("::{closure")[0].endswith("::map_exp") and f.impl_at and
+             (f.impl_at[0].endswith("constraint/expected.rs") or f.impl_at[0].endswith("constraint/mod.rs"))]
+    if len(cands) < 3:
+        raise Unsupported(f"map_exp items: {[c[0] for c in cands]}")
+    for nme, f in cands:
+        ex = Exec(mir, max_paths=5000)
+        st = State()
+        vm, gvm = opq("var_mapping", "VarMapping"), opq("global_var_mapping", "VarMapping")
+        vmr, gvmr = Ref(ex.new_cell(st, vm)), Ref(ex.new_cell(st, gvm))
+        args = []
+        is_closure = "{closure" in nme
+        if is_closure:
+            # captured references: var_mapping, global_var_mapping in source order
+            envty = f.args[0][1]
+            caps = [vmr, gvmr]
+            env = Agg("closure", envty.lstrip("&").replace("mut ", "").strip(), caps)
+            args.append(Ref(ex.new_cell(st, env)) if envty.strip().startswith("&") else env)
+            for an, aty in f.args[1:]:
+                args.append(Ref(ex.new_cell(st, opq(f"arg{an}", aty.strip().lstrip("&")))) if aty.strip().startswith("&") else opq(f"arg{an}", aty.strip()))
+        else:
+            args = [Ref(ex.new_cell(st, opq("self", "Expected"))), vmr, gvmr]
+        try:
+            ends = e2.run_kernel(run, ex, f, args, st)
+        except Unsupported:
+            if is_closure:
+                continue            # closure whose captures are not the two tables (not a renaming closure)
+            raise
+        for p in ends:
+            s = p.state
+            for ev in p.events:
+                short = ev["name"].split("::")[-1]
+                if short == "map_exp":
+                    n += 1
+                    claims.append(z3.Implies(conj(p.cond), z3.And(ev["argvals"][1] == ex.to_val(s, vmr), ev["argvals"][2] == ex.to_val(s, gvmr))))
+            gets = [ev for ev in p.events if ev["name"].split("::")[-1] == "get" and "HashMap" in ev["callee"]]
+            if gets:
+                n += 1
+                first_local = gets[0]["argvals"][0] == ex.to_val(s, vmr)
+                second = z3.BoolVal(True) if len(gets) < 2 else z3.And(gets[1]["argvals"][0] == ex.to_val(s, gvmr),
+                                                                         ex.discr(s, gets[0]["ret"], "Option") == 0)
+                claims.append(z3.Implies(conj(p.cond), z3.And(first_local, second, z3.BoolVal(len(gets) <= 2))))
+    if n < 4:
+        raise Unsupported(f"only {n} renaming sites found")
+    e2.prove(run, ob, ex, [], conj(claims), {}, fam.as_replay(prefix + ":", only=["shadow-"]))
+    run.samples.append({"obligation": ob.id, "renaming_sites": n, "items": [c[0] for c in cands]})
 
 
 def ob_return(run, mir, rp, fam):
@@ -465,7 +589,7 @@ def run(run):
                "outside: that a violation is still caught in every nesting context (branch forking in ConstrBuilder); the accepted-exactly-when direction for whole programs")
     run.trusted += ["rustc nightly MIR dump", "mirsym MIR semantics", "z3"]
     run.bounds = {"paths": "all paths of each kernel with loops cut at their headers"}
-    for f in (ob_call_parameters, ob_method_parameters, ob_return, ob_id_from_var, ob_fun_body, ob_unify_type):
+    for f in (ob_call_parameters, ob_method_parameters, ob_access_direction, ob_shadow_mapping, ob_return, ob_id_from_var, ob_fun_body, ob_unify_type):
         try:
             f(run, mir, rp, fam)
         except Unsupported as e:
